@@ -136,6 +136,16 @@ func TestC17(t *testing.T) {
 				ReadyAfter: rapid.SampledFrom([]time.Duration{0, time.Second, 3 * time.Second, 5 * time.Second}).Draw(rt, "readyAfter"), // + stagger (<= 4 s) stays below the shortest time-out (10 s)
 				WithErrors: rapid.Bool().Draw(rt, "withErrors"), StaggerMod: rapid.SampledFrom([]int{0, 2, 3, 5}).Draw(rt, "stagger"),
 				ErrCode: rapid.SampledFrom(sim.FleetErrorCodes).Draw(rt, "errCode"), LateTail: rapid.SampledFrom([]int{0, 0, 1, 5, 50, 99}).Draw(rt, "lateTail")}
+			// some of the fleet's instances never come up (reclaimed, stopped by their own bootstrap, ...)
+			neverReady := 0
+			if fleet && d > 0 {
+				neverReady = rapid.SampledFrom([]int{0, 0, 0, 0, 1, 2}).Draw(rt, "neverReady")
+				if int64(neverReady) > d {
+					neverReady = int(d)
+				}
+				c.a.Fleet.NeverReady = neverReady
+				c.a.Fleet.GoneState = rapid.SampledFrom([]string{"", "stopped", "shutting-down", "terminated", "stopping"}).Draw(rt, "goneState")
+			}
 			if c.a.Fleet.LateTail > 0 && c.a.Fleet.ReadyAfter > 3*time.Second {
 				c.a.Fleet.ReadyAfter = 3 * time.Second // ready-after + stagger (<= 4 s) + late tail (2 s) stays below the shortest time-out
 			}
@@ -229,6 +239,20 @@ func TestC17(t *testing.T) {
 				if dClass == "1" || dClass == "head" || dClass == "head-1" || stale || instDelta != 0 {
 					col.Nontrivial(fmt.Sprintf("plain|%s|stale=%v|inst=%d", dClass, stale, instDelta))
 				}
+				return
+			}
+			if neverReady > 0 {
+				// all-or-nothing: the fleet did not come up completely, so nothing is attached and the caller is told
+				attached := 0
+				for _, w := range ws {
+					if w.Kind == sim.AAttach && w.OK() {
+						attached += len(w.IDs)
+					}
+				}
+				if err == nil || attached > 0 {
+					fail(rt, dump, "C17:fleet-not-all-or-nothing", "%d of %d instances never became running (reported as %q), yet %d were attached and IncreaseSize returned %v\n%s", neverReady, d, c.a.Fleet.GoneState, attached, err, desc())
+				}
+				col.Nontrivial(fmt.Sprintf("fleet-incomplete|%d|%d|%s", d, neverReady, c.a.Fleet.GoneState))
 				return
 			}
 			// fleet mode
@@ -335,12 +359,19 @@ type fleetFailure struct {
 	termNth   int // -1 none
 }
 
-func runFleetFailure(rt *rapid.T, col interface{ Eval(int) }, size int, cfg cloudprovider.NodeGroupConfig, zones string, split, page, stagger int, f fleetFailure, errCode string, lateTail int) (es []sim.Entry, fleetE *sim.Entry, err error, exited bool) {
+// fleetEnv: how the simulated services behave around the failure point
+type fleetEnv struct {
+	goneState string // state reported for instances that never become running ("" = pending)
+	faultCode string // AWS error code of the injected failures ("" = InternalFailure)
+	faultRuns int    // the failing call keeps failing this many times in a row (a throttled call that is retried)
+}
+
+func runFleetFailure(rt *rapid.T, col interface{ Eval(int) }, size int, cfg cloudprovider.NodeGroupConfig, zones string, split, page, stagger int, f fleetFailure, errCode string, lateTail int, env fleetEnv) (es []sim.Entry, fleetE *sim.Entry, err error, exited bool) {
 	c, herr := newAWSCase(0, 3, int64(size)+10, cfg, zones)
 	if herr != nil {
 		rt.Fatalf("harness: %v", herr)
 	}
-	c.a.Fleet = sim.FleetPlan{Split: split, PageSize: page, StaggerMod: stagger, WithErrors: errCode != "", ErrCode: errCode, LateTail: lateTail}
+	c.a.Fleet = sim.FleetPlan{Split: split, PageSize: page, StaggerMod: stagger, WithErrors: errCode != "", ErrCode: errCode, LateTail: lateTail, GoneState: env.goneState}
 	var faults []sim.Fault
 	switch f.mode {
 	case "never-ready":
@@ -348,10 +379,10 @@ func runFleetFailure(rt *rapid.T, col interface{ Eval(int) }, size int, cfg clou
 	case "status-error":
 		faults = append(faults, sim.Fault{Kind: sim.AStatusPages, Nth: -1})
 	case "attach":
-		faults = append(faults, sim.Fault{Kind: sim.AAttach, Nth: f.attachNth})
+		faults = append(faults, sim.Fault{Kind: sim.AAttach, Nth: f.attachNth, Code: env.faultCode, Count: env.faultRuns})
 	}
 	if f.termNth >= 0 {
-		faults = append(faults, sim.Fault{Kind: sim.ATerminateInst, Nth: f.termNth})
+		faults = append(faults, sim.Fault{Kind: sim.ATerminateInst, Nth: f.termNth, Code: env.faultCode})
 	}
 	c.j.Arm(faults)
 	mark := c.j.Mark()
@@ -452,6 +483,9 @@ func TestC18(t *testing.T) {
 			batches := (size + 19) / 20
 			errCode := rapid.SampledFrom(append([]string{"", "", ""}, sim.FleetErrorCodes...)).Draw(rt, "errCode")
 			lateTail := rapid.SampledFrom([]int{0, 0, 0, 1, 7, 50}).Draw(rt, "lateTail")
+			env := fleetEnv{goneState: rapid.SampledFrom([]string{"", "", "stopped", "stopping", "shutting-down", "terminated"}).Draw(rt, "goneState"),
+				faultCode: rapid.SampledFrom([]string{"", "", "Throttling", "RequestLimitExceeded", "ValidationError", "ThrottlingException"}).Draw(rt, "faultCode"),
+				faultRuns: rapid.SampledFrom([]int{1, 1, 3, 5}).Draw(rt, "faultRuns")}
 			points := []fleetFailure{{"none", 0, -1}}
 			for _, tn := range []int{-1, 0, 1, 2} {
 				points = append(points, fleetFailure{"never-ready", rapid.IntRange(0, size-1).Draw(rt, "neverReady"), tn})
@@ -464,7 +498,7 @@ func TestC18(t *testing.T) {
 				}
 			}
 			for _, f := range points {
-				es, fleetE, err, exited := runFleetFailure(rt, col, size, cfg, zones, split, page, stagger, f, errCode, lateTail)
+				es, fleetE, err, exited := runFleetFailure(rt, col, size, cfg, zones, split, page, stagger, f, errCode, lateTail, env)
 				if exited {
 					fail(rt, dumpPath(), "C18:exit-after-one-failure", "size %d failure %+v: escalator exited after a single failed fleet scale-up", size, f)
 				}
